@@ -173,13 +173,13 @@ pub fn run(env: &Env) -> i32 {
     }
     for cat in CATEGORIES {
         let name = format!("c13-{cat}");
-        value_stream(env, &mut st, &name, env.tier.n(8000, 150_000), || (findings::findings(cat, 1), proptest::collection::vec(any::<u64>(), K)), |(f, seeds): &(Findings, Vec<u64>), s| {
+        value_stream(env, &mut st, &name, env.tier.n(20_000, 400_000), || (findings::findings(cat, 1), proptest::collection::vec(any::<u64>(), K)), |(f, seeds): &(Findings, Vec<u64>), s| {
             s.sample(1, || json!({"category": cat, "findings": findings::to_json(f), "seeds": seeds}));
             check_lib(&name, cat, f, seeds, s)
         });
     }
     if env.solstat_bin().exists() {
-        tape_stream(env, &mut st, "c13-binary", env.tier.n(100, 1500), 600, |tape, s| binary_case(env, tape, s));
+        tape_stream(env, &mut st, "c13-binary", env.tier.n(200, 3000), 600, |tape, s| binary_case(env, tape, s));
     } else {
         st.harness_errors.push("solstat binary not built".into());
     }
